@@ -65,7 +65,7 @@ Definition get_num_fmt_attributes (tbl : numtable) (numId ilvl : str) : option n
 
 Definition get_start_value_zero_based (tbl : numtable) (numId ilvl : str) : Z :=
   match get_num_fmt_attributes tbl numId ilvl with
-  | Some {| na_start := Some s |} => if (s =? 0)%Z then 0%Z else (s - 1)%Z
+  | Some {| na_start := Some s |} => (s - 1)%Z
   | _ => 0%Z
   end.
 
